@@ -62,11 +62,15 @@ RATIONAL_ROT = ("Cylinder", "CylinderSegment", "Polyline", "Circle")
 SECOND = {"pos": (1.0, 1.5, -2.0), "obs": (5.0, 6.0, 7.0)}
 
 
-def _ctor(name):
+MESH2_SHIFT, MESH2_SCALE = (3.5, 4.0, 8.5), 2.0  # second TriangularMesh instance: a different mesh that contains the second observer
+
+
+def _ctor(name, second=False):
     import magpylib as m
 
     if name == "TriangularMesh":
-        return m.magnet.TriangularMesh(vertices=UNIT_TETRA, faces=[(0, 2, 1), (0, 1, 3), (1, 2, 3), (0, 3, 2)], polarization=(0.1, 0.2, 0.3),
+        verts = (np.array(UNIT_TETRA, dtype=float) * MESH2_SCALE + np.array(MESH2_SHIFT)) if second else UNIT_TETRA
+        return m.magnet.TriangularMesh(vertices=verts, faces=[(0, 2, 1), (0, 1, 3), (1, 2, 3), (0, 3, 2)], polarization=(0.1, 0.2, 0.3),
                                        check_open=False, check_disconnected=False, check_selfintersecting=False, reorient_faces=False)
     mk = {
         "Cuboid": lambda: m.magnet.Cuboid(dimension=(1, 2, 3), polarization=(0.1, 0.2, 0.3)),
@@ -95,13 +99,14 @@ def cases(tier, seed):
     return out
 
 
-def _param_values(name, symbolic, env=None):
+def _param_values(name, symbolic, env=None, second=False):
     """returns dict public name -> value (symbolic array / S / concrete)"""
     vals = {}
     inputs = []
     for pub, priv, shp, conc in CLASSES[name][1]:
         if pub == "mesh":
-            vals[pub] = oarr(tetra_mesh(UNIT_TETRA)) if symbolic else tetra_mesh(UNIT_TETRA)
+            msh = tetra_mesh(UNIT_TETRA, shift=MESH2_SHIFT, scale=MESH2_SCALE) if second else tetra_mesh(UNIT_TETRA)
+            vals[pub] = oarr(msh) if symbolic else msh
             continue
         if shp is None:
             vals[pub] = oarr(np.array(conc, dtype=float)) if symbolic else np.array(conc, dtype=float)
@@ -243,8 +248,8 @@ def run_case(case, info):
             src._vertices = oarr(np.asarray(src._vertices, dtype=float))
         src._position = pos.reshape(1, 3).copy()
         src._orientation = SymRot(rot.q.copy(), False)
-        src2 = _ctor(name)
-        vals2, _ = _param_values(name, False, env={})
+        src2 = _ctor(name, second=True)
+        vals2, _ = _param_values(name, False, env={}, second=True)
         # src2 keeps the concrete constructor parameter values, stored as constant terms (plain float arrays cannot be
         # indexed by the symbolic masks of a mixed batch)
         for pub, priv, shp, conc in CLASSES[name][1]:
@@ -332,8 +337,8 @@ def replay(spec):
     _install_params(src, name, vals)
     src._position = pos.reshape(1, 3).copy()
     src._orientation = R.from_quat(q.reshape(1, 4))
-    src2 = _ctor(name)
-    vals2, _ = _param_values(name, False, env={})
+    src2 = _ctor(name, second=True)
+    vals2, _ = _param_values(name, False, env={}, second=True)
     pos2 = np.array(SECOND["pos"])
     rot2 = R.identity()
     src2._position = pos2.reshape(1, 3).copy()
